@@ -398,6 +398,18 @@ MODULE_WITNESSES = [
      "`atomNumbersRange abc` is accepted (ignored)"),
     ("strict:vector1d:missing-parenthesis", 4, DP % "(0.1, 0.2, 0.3, 0.4", False, "`centers (0.1, 0.2, 0.3, 0.4` without the closing parenthesis is accepted"),
     ("crash:colvar::groupcoordnum::init", 4, GC % "indexGroup nosuch", False, "groupCoord with an undefined index group"),
+    ("crash:colvar::distance_inv::init", 4, (GC % "indexGroup nosuch").replace("groupCoord", "distanceInv"), False, "distanceInv with an undefined index group"),
+    ("crash:colvar::distance_pairs::init", 4, (GC % "indexGroup nosuch").replace("groupCoord", "distancePairs"), False, "distancePairs with an undefined index group"),
+    ("crash:colvar::gyration::init", 4, "colvar {\n  name g\n  gyration {\n    atoms {\n      indexGroup nosuch\n    }\n  }\n}\n", False,
+     "gyration with an undefined index group"),
+    ("crash:colvarbias_meta::init", 4, DZ.replace("harmonic {", "metadynamics {").replace("  centers %s\n  forceConstant 4.0\n", "  hillWeight 0.01%s\n") % ("atomNumbers 1", ""),
+     False, "metadynamics without hillWidth"),
+    ("crash:colvarbias_restraint_centers_moving::init", 4, DZ.replace("  centers %s\n", "  targetCenters %s\n  targetNumSteps 10\n") % ("atomNumbers 1", "1.0"), False,
+     "harmonic restraint with targetCenters but no centers"),
+    ("crash:colvarvalue::check_types", 4, DZ.replace("  forceConstant 4.0\n", "  forceConstant 4.0\n  targetCenters abc\n  targetNumSteps 10\n") % ("atomNumbers 1", "0.25"), False,
+     "harmonic restraint with `targetCenters abc`"),
+    ("crash:colvar::parse_analysis", 4, (DZ % ("atomNumbers 1", "0.25")).replace("  width 0.5\n", "  width 0.5\n  runAve on\n  runAveStride 0\n"), False,
+     "runAveStride 0"),
 ]
 
 
@@ -700,7 +712,7 @@ def check(run):
         if bad:
             run.violation(bad[0], bad[1], {"kind": "unit", "case": c, "impl": io, "model": mo})
         if io != mo:
-            comp = "unit:" + ("key_lookup" if kind == "KL" else kind)
+            comp = "unit:" + {"KL": "key_lookup", "CB": "braces", "SC": "comments", "SS": "split_string", "PF": "flat", "PC": "flat"}.get(kind, kind)
             if kind in ("PF", "PC"):
                 # is it the pinned (lenient) value rule?  then the repaired defect is back: name it
                 rcl, ml, _ = V.run_lines(model, [c.replace(kind + " 1 ", kind + " 0 ", 1)])
